@@ -1,6 +1,6 @@
 #!/usr/bin/env python3
 """Write the task files for a batch of behaviour-preserving-refactoring sub-agents (one per area) and create their worktrees.
-usage: genbenignprompts.py <tag> <style>   (style: everyday | restructure)
+usage: genbenignprompts.py <tag> <style>   (style: everyday | restructure | merge)
 Writes /tmp/promptb<tag>-<area>.txt, creates /tmp/wtb<tag>-<area> and /tmp/benign<tag>-<area>/."""
 import os, subprocess, sys
 tag, style = sys.argv[1], sys.argv[2]
@@ -19,6 +19,7 @@ areas = {
 }
 styles = {
  'everyday': "This time they should be the SMALL, EVERYDAY kind of edit that shows up in ordinary maintenance commits, each touching only a few lines: rename a local variable or an unexported function; reorder two independent statements; invert an if/else; hoist a repeated sub-expression into a local; inline a single-use local; replace a C-style index loop by range or the reverse; replace strings.Index(s, x) >= 0 by strings.Contains(s, x); split one 'a && b' condition into two nested ifs or merge two; add or remove an else after a return; extract a two- or three-line block into a tiny unexported helper (at most two of the six).",
+ 'merge': "This time they should go in the OPPOSITE direction of the usual 'extract a helper' refactoring: REMOVE indirection (each roughly 10-60 changed lines). Inline a small unexported helper function into its only caller or into each of its few callers and delete it; replace a one-method unexported helper type by the closure or plain function it wraps; merge two adjacent loops over the same slice into one, or two consecutive if-blocks with the same condition into one; replace a named intermediate variable that is used once by its expression; fold a trivial wrapper method into its callers; replace a small table-driven dispatch by the equivalent switch, or a switch with two cases by an if/else. Keep every check, its order relative to filesystem operations and lock operations, every error text and every exported signature exactly as it is.",
  'restructure': "This time they should be MEDIUM-SIZED RESTRUCTURINGS of the kind a maintainer does when tidying a file (each roughly 15-80 changed lines): split a long function into two or three unexported helpers that take what they need as parameters and return (value, error); turn an if/else-if chain into a switch or the reverse; replace a closure by a method on a small unexported struct that carries the captured variables (or the reverse); introduce a small unexported type or named constant for something that is repeated; move a validation step into a helper that returns a bool or an error and call it from the places that did it inline; replace a flag variable by an early return or a labelled continue; turn a loop with an index into one over a slice of a small struct; convert a sequence of appends into a composite literal; unify two near-identical code paths behind one helper ONLY where their behaviour is really identical. Keep every check, its order relative to filesystem operations and lock operations, every error text and every exported signature exactly as it is.",
 }
 for a,(what,where) in areas.items():
